@@ -20,8 +20,19 @@ def mutate(obj, rng):
     from odfdo import Cell, Column, Row
 
     if isinstance(obj, Row):
-        k = rng.randrange(5)
-        if k == 0:
+        k = rng.randrange(8)
+        if k == 5:
+            obj.repeated = 3                      # the public setter (it looks for an owner table to refresh)
+        elif k >= 6:
+            # the copy starts a life of its own in ANOTHER table, and is edited there
+            from odfdo import Table
+
+            other = Table("Other")
+            other.append_row(Row(width=2))
+            other.append_row(obj, clone=(k == 7))
+            obj.repeated = 4
+            other.set_value((0, 1), "MUT")
+        elif k == 0:
             obj.set_value(0, "MUT")
         elif k == 1:
             obj.append_cell(Cell("MUT"))
@@ -57,7 +68,8 @@ def run(chk: core.Check) -> None:
         "tables drawn as run-length encodings (repeated rows / cells / columns, ragged rows), optionally after cache-filling reads; every getter "
         "of {get_cell, get_row, get_cells, get_rows, traverse, rows, cells, get_column, get_columns, traverse_columns, get_column_cells, Row.get_cell, "
         "Row.traverse, Row.cells} with tuple / string / ranged / negative / outside coordinates; each returned object is checked for its coordinates and "
-        "repeat count, then mutated in one of 4-5 ways and the table serialisation is compared byte for byte; the generators (traverse, Row.traverse, "
+        "repeat count, then mutated in one of 4-8 ways (rows also through the public repeated setter, detached or after being put into ANOTHER table) and the table's "
+        "serialisation (byte for byte) and its answers (size, matrix) are compared; the generators (traverse, Row.traverse, "
         "traverse_columns, with and without range) are also consumed lazily, each yielded object being modified before the next is asked for. non-trivial = the target lies in a run of "
         "repeat >= 2, the read is ranged or outside; distinct by (encoding, getter, coordinates)"
     )
@@ -74,6 +86,7 @@ def run(chk: core.Check) -> None:
         for _ in range(rng.randrange(3)):
             T.do_read(t, T.gen_read(rng, g))
         base = t.serialize()
+        base_reads = (tuple(t.size), T.canon(t.get_values()))
         rle = {"cols": cols, "rows": rows}
 
         def check(getter, objs, expect_xy, expanding, case, documented_copy=True):
@@ -104,6 +117,10 @@ def run(chk: core.Check) -> None:
                     mutate(obj, rng)
                     if t.serialize() != base:
                         chk.fail({**rle, "getter": getter, **case, "index": i}, f"{getter}: modifying the returned object changed the table")
+                        return
+                    if (tuple(t.size), T.canon(t.get_values())) != base_reads:
+                        chk.fail({**rle, "getter": getter, **case, "index": i, "size_now": tuple(t.size)},
+                                 f"{getter}: after the returned object was modified the table answers differently (its XML is unchanged: a map or cache is shared with the copy)")
                         return
                     now = [o.serialize() for o in objs if o is not None]
                     for j, (a, b) in enumerate(zip(others, now)):
